@@ -84,7 +84,7 @@ impl Feat {
             withdrawals: false,
             donation: false,
             witnesses: false,
-            assign_policy_as_bytes: false,
+            assign_policy_as_bytes: true,
             boundary_args: false,
             mixed_case: true,
             max_txs: 2,
